@@ -22,6 +22,9 @@ func main() {
 	Main(map[string]*Suite{
 		"C11":       {Gen: genC11, Run: muxh.RunIsolated("C11worker", 32)},
 		"C11worker": {Gen: func(*GenCtx) {}, Run: muxh.Exec},
+		// the back-to-back request+FIN cases alone (also run by C16's check: shutdown of tubes whose
+		// initiation goroutine was overtaken)
+		"C11fin": {Gen: func(g *GenCtx) { genFin(g, 6) }, Run: muxh.RunIsolated("C11worker", 8)},
 	})
 }
 
@@ -256,6 +259,31 @@ func genCase(g *GenCtx) {
 	g.Op("stop")
 }
 
+// genFin: a peer that sends the request for a tube and its FIN back to back: the FIN may be processed
+// before the goroutine the request started has finished.  Whatever the order, the tubes can be
+// closed, traffic on the other tube flows and Stop returns.
+func genFin(g *GenCtx, n int) {
+	for k := 0; k < n; k++ {
+		x := &gen{g: g, parity: 0, salt: 1}
+		g.Op("new 0")
+		v := x.openRemote(true, 3, 7)
+		x.traffic(v, 1)
+		for id := 20; id < 52; id += 2 {
+			g.Op("rawnw %s", HexOrDash(muxh.Init(byte(id+k%2), "QLA", 2)))
+			g.Op("rawnw %s", HexOrDash(muxh.Frame(byte(id+k%2), "LF", 0, 1, nil)))
+		}
+		for id := 20; id < 52; id += 2 {
+			g.Op("accept")
+		}
+		for id := 20; id < 52; id += 8 {
+			g.Op("reap r %d", id+k%2)
+		}
+		x.traffic(v, 1)
+		x.write(v)
+		g.Op("stop")
+	}
+}
+
 func genC11(g *GenCtx) {
 	// fixed cases (always first): the inputs DESIGN.md names
 	fixed := func(body func(x *gen, v *tube)) {
@@ -287,6 +315,31 @@ func genC11(g *GenCtx) {
 		g.Op("has r 137")
 		g.Op("has r 138")
 	})
+	genFin(g, 3)
+	// Stop while the peer's datagrams keep arriving: a request (retransmission) for a tube that is closed
+	// but still in the map, a data frame, an ACK, junk - after the muxer's send queues were closed
+	for p := 0; p < 2; p++ {
+		for _, late := range [][]byte{muxh.Init(byte(p), "QLA", 2), muxh.Init(byte(p), "PLA", 2), muxh.Init(3, "QLA", 7), muxh.Init(3, "Q", 7),
+			muxh.Frame(byte(p), "L", 1, 1, []byte("late")), muxh.Frame(byte(p), "LA", 2, 0, nil), muxh.Frame(byte(p), "LF", 0, 1, nil),
+			muxh.Init(200, "QLA", 1), {1, 2, 3}} {
+			// (a) every tube went through its close handshake before Stop: the transport stays open
+			// until Stop closes it, the receiver is still there when the datagram arrives
+			g.Op("new %d", p)
+			g.Op("create r 2")
+			g.Op("raw %s", HexOrDash(muxh.Init(byte(p), "PLA", 2)))
+			g.Op("wr r %d %s", p, HexOrDash([]byte("x")))
+			g.Op("shut r %d", p)
+			g.Op("stopfeed %s", HexOrDash(late))
+			// (b) with open tubes whose peer does not answer: Stop's fallback closes the transport first
+			x := &gen{g: g, parity: p, salt: 1}
+			g.Op("new %d", p)
+			v := x.openRemote(true, 3, 7)
+			x.traffic(v, 1)
+			g.Op("create r 2")
+			x.raw(muxh.Init(byte(p), "PLA", 2))
+			g.Op("stopfeed %s", HexOrDash(late))
+		}
+	}
 	n := 500
 	if g.Thorough() {
 		n = 16000 / g.Parts
